@@ -503,6 +503,7 @@ pub fn run(thorough: bool) -> i32 {
         tg.lower_sent_while_higher_waited += gg.lower_sent_while_higher_waited;
         tg.ready_inside_a_turn += gg.ready_inside_a_turn;
         tg.paced_due_polls += gg.paced_due_polls;
+        tg.late_objects += gg.late_objects;
         tg.higher_resumed_after_lower += gg.higher_resumed_after_lower;
         if let Some((key, what)) = v {
             rep.add(Violation { key, what, case: json!({"check": "timed", "case": serde_json::to_value(c).unwrap()}) });
@@ -515,6 +516,7 @@ pub fn run(thorough: bool) -> i32 {
     rep.guard("timed_lower_queue_sends_while_higher_object_waits_then_higher_resumes", tg.higher_resumed_after_lower);
     rep.guard("timed_polls_between_two_transfers_of_one_carousel_turn", tg.ready_inside_a_turn);
     rep.guard("timed_polls_with_a_paced_packet_due", tg.paced_due_polls);
+    rep.guard("timed_late_objects_checked", tg.late_objects);
     rep.sample(serde_json::to_value(&tcases[tcases.len() / 3]).unwrap());
     rep.cov("states", ncases as u64);
     rep.cov("transitions", g.packets);
@@ -565,6 +567,10 @@ pub struct TimedCase {
     /// a plain (untimed) object in the top queue, added after the timed one
     #[serde(default)]
     pub top_plain: bool,
+    /// a further plain object U of the top queue is added before the reads of poll P and published before the reads
+    /// of poll Q >= P (FullFDT): from poll Q on, until U is completely sent, nothing of a lower queue leaves
+    #[serde(default)]
+    pub late: Option<(usize, usize)>,
 }
 
 fn timed_obj(t: &Timed, salt: u8, prio: u32) -> ObjSpec {
@@ -589,6 +595,11 @@ fn timed_obj(t: &Timed, salt: u8, prio: u32) -> ObjSpec {
 type Trace = Vec<(usize, usize, usize, u32, u32)>;
 
 /// queue of each catalogue object of the full run, and the packet count of the plain top-queue object
+/// catalogue index of the late object U (right after the objects of the top queue)
+fn late_index(c: &TimedCase) -> Option<usize> {
+    c.late.map(|_| if c.top_plain { 2 } else { 1 })
+}
+
 fn timed_layout(c: &TimedCase) -> (Vec<usize>, Option<(usize, usize)>) {
     let mut prio = Vec::new();
     let mut plain = None;
@@ -596,6 +607,9 @@ fn timed_layout(c: &TimedCase) -> (Vec<usize>, Option<(usize, usize)>) {
         prio.push(q);
         if q == 0 && c.top_plain {
             plain = Some((prio.len(), SIZES[3].div_ceil(4)));
+            prio.push(0);
+        }
+        if q == 0 && c.late.is_some() {
             prio.push(0);
         }
     }
@@ -617,6 +631,12 @@ fn timed_run(c: &TimedCase, nqueues: usize) -> Result<Trace, (String, String)> {
             o.prio = 0;
             cat.push(o);
         }
+        if q == 0 && c.late.is_some() {
+            let mut o = ObjSpec::simple(SIZES[3], 41);
+            o.oti = Some(OtiSpec::new(Scheme::NoCode, 4, 2, 0, true));
+            o.prio = 0;
+            cat.push(o);
+        }
     }
     if nqueues > c.timed.len() {
         for j in 0..c.low_objs {
@@ -629,11 +649,21 @@ fn timed_run(c: &TimedCase, nqueues: usize) -> Result<Trace, (String, String)> {
     let n = cat.len();
     let mut sys = SendSys::new(&sess, Arc::new(cat));
     for k in 0..n {
-        sys.apply(&Ev::Add(k));
+        if Some(k) != late_index(c) {
+            sys.apply(&Ev::Add(k));
+        }
     }
     sys.apply(&Ev::Publish);
     let mut tr: Trace = Vec::new();
     for poll in 0..c.polls {
+        if let (Some((p, q)), Some(k)) = (c.late, late_index(c)) {
+            if poll == p {
+                sys.apply(&Ev::Add(k));
+            }
+            if poll == q {
+                sys.apply(&Ev::Publish);
+            }
+        }
         let mut got = 0usize;
         let mut reads = 0;
         while got < c.budget {
@@ -679,6 +709,7 @@ pub struct TG {
     pub ready_inside_a_turn: u64,
     /// polls at which the next packet of a paced top-queue object was due
     pub paced_due_polls: u64,
+    pub late_objects: u64,
 }
 
 pub fn run_timed(c: &TimedCase, g: &mut TG) -> Option<(String, String)> {
@@ -710,6 +741,25 @@ pub fn run_timed(c: &TimedCase, g: &mut TG) -> Option<(String, String)> {
                 }
             }
         }
+        // the late object U: published at poll Q, plain, top queue - nothing of a lower queue until it is completely sent
+        // (unless it has to wait for the queue's only slot, held by a paced object)
+        if let (Some((_, q)), Some(k)) = (c.late, late_index(c)) {
+            if c.multiplex >= 2 || c.timed[0].kind <= 2 {
+                let needed = SIZES[3].div_ceil(4);
+                let mut sent = 0;
+                for x in &full {
+                    if x.2 == k {
+                        sent += 1;
+                    } else if x.0 >= q && prio_of(x.2) > 0 && sent < needed {
+                        return Some((
+                            "C13/timed/lower-priority-packet-while-higher-ready".into(),
+                            format!("poll {}: packet of queue {} while the object added at poll {:?} and published at poll {} to queue 0 (no timing) has sent {} of {} packets", x.0, prio_of(x.2), c.late.map(|l| l.0), q, sent, needed),
+                        ));
+                    }
+                }
+                g.late_objects += 1;
+            }
+        }
         // inside one poll (one instant) a higher queue never follows a lower one
         for w in full.windows(2) {
             if w[0].0 == w[1].0 && prio_of(w[1].2) < prio_of(w[0].2) {
@@ -723,7 +773,7 @@ pub fn run_timed(c: &TimedCase, g: &mut TG) -> Option<(String, String)> {
         // (ready from that instant on) and IntervalBetweenStartTimes (ready once more than the interval has
         // passed since the previous transfer STARTED - not since it ended). At a poll where the timed object
         // of the top queue is ready and not in transmission, the first object packet must be its own.
-        if c.timed.len() == 1 && !c.top_plain && (matches!(c.timed[0].kind, 0 | 2) || (c.timed[0].kind == 1 && c.timed[0].count >= 2)) {
+        if c.timed.len() == 1 && !c.top_plain && c.late.is_none() && (matches!(c.timed[0].kind, 0 | 2) || (c.timed[0].kind == 1 && c.timed[0].count >= 2)) {
             let t0k = &c.timed[0];
             let n = SIZES[t0k.size as usize].div_ceil(4).max(1);
             let mut sent = 0usize; // packets of the timed object so far
@@ -774,7 +824,7 @@ pub fn run_timed(c: &TimedCase, g: &mut TG) -> Option<(String, String)> {
         // absolute readiness of a PACED object alone in the top queue: packet i is due at start + i * target / n,
         // "due" includes the instant of exact equality; at a poll where its next packet is due, the first object
         // packet of the poll is its own
-        if c.timed.len() == 1 && !c.top_plain && matches!(c.timed[0].kind, 3 | 4) && c.timed[0].count <= 1 {
+        if c.timed.len() == 1 && !c.top_plain && c.late.is_none() && matches!(c.timed[0].kind, 3 | 4) && c.timed[0].count <= 1 {
             let t0k = &c.timed[0];
             let n = SIZES[t0k.size as usize].div_ceil(4).max(1) as u64;
             let mut sent = 0u64;
@@ -887,15 +937,24 @@ pub fn timed_cases(thorough: bool) -> Vec<TimedCase> {
                         if low_objs == 2 && multiplex == 1 && !thorough {
                             continue;
                         }
-                        v.push(TimedCase { timed: vec![t.clone()], step_ms, budget, multiplex, low_objs, polls: 14, top_plain: false });
-                        v.push(TimedCase { timed: vec![t.clone()], step_ms, budget, multiplex, low_objs, polls: 14, top_plain: true });
+                        v.push(TimedCase { timed: vec![t.clone()], step_ms, budget, multiplex, low_objs, polls: 14, top_plain: false, late: None });
+                        // a plain object added while the timed one is at work, published at once or some polls later
+                        if t.kind <= 2 && low_objs == 1 {
+                            for late in [(1usize, 1usize), (1, 3), (2, 6), (4, 4)] {
+                                if !thorough && budget == 5 {
+                                    continue;
+                                }
+                                v.push(TimedCase { timed: vec![t.clone()], step_ms, budget, multiplex, low_objs, polls: 14, top_plain: false, late: Some(late) });
+                            }
+                        }
+                        v.push(TimedCase { timed: vec![t.clone()], step_ms, budget, multiplex, low_objs, polls: 14, top_plain: true, late: None });
                         for m in &mids {
                             if !thorough && (budget == 5 || low_objs == 2) {
                                 continue;
                             }
-                            v.push(TimedCase { timed: vec![t.clone(), m.clone()], step_ms, budget, multiplex, low_objs, polls: 14, top_plain: budget == 2 });
+                            v.push(TimedCase { timed: vec![t.clone(), m.clone()], step_ms, budget, multiplex, low_objs, polls: 14, top_plain: budget == 2, late: None });
                             if thorough {
-                                v.push(TimedCase { timed: vec![m.clone(), t.clone()], step_ms, budget, multiplex, low_objs, polls: 14, top_plain: budget == 1 });
+                                v.push(TimedCase { timed: vec![m.clone(), t.clone()], step_ms, budget, multiplex, low_objs, polls: 14, top_plain: budget == 1, late: None });
                             }
                         }
                     }
